@@ -72,14 +72,40 @@ func TaskExecutor.ExecuteAt$1
 type QueueElement
   closeonly cancel
 
+-- the heap of a queue and the removal handles (heap elements) of its values: hq[r] is the queue a heap element was pushed
+-- to (ghost). Under heapMutex every slot of the heap holds an element of this queue that knows its position, and every
+-- element of this queue that does not say "removed" (index -1) is in the heap at the position it says - so that a later
+-- Cancel, which removes by that index, removes the right thing (and does not index outside the heap).
+-- (container/heap is not under contract: that its Push / Pop / Remove on a generalheap keep this is assumed - the
+-- generalheap half, Swap / Push / Pop keeping h[i].index == i and popped => -1, is proved in C12.)
+global hq (Array Int Int)
 type Queue
   monitor heapMutex level 5 guards heap
+    invariant (forall i Int :: 0 <= i && i < len(self.heap) ==> self.heap[i] != nil && self.heap[i].index == i && sel(hq, self.heap[i]) == self)
+    invariant (forall r Int :: sel(hq, r) == self && as(*generalheap.HeapElement[HeapKey, *QueueElement[T]], r).index != 0 - 1 ==> 0 <= as(*generalheap.HeapElement[HeapKey, *QueueElement[T]], r).index && as(*generalheap.HeapElement[HeapKey, *QueueElement[T]], r).index < len(self.heap) && self.heap[as(*generalheap.HeapElement[HeapKey, *QueueElement[T]], r).index] == r)
 
 -- removes the element from the heap if it is still in it, by its maintained index (the heap itself - generalheap
 -- through container/heap - is outside this claim: assumed to touch the heap slice, its elements and their indices only)
 assume-func github.com/iotaledger/hive.go/runtime/timed.Queue.removeElement(t, element)
   requires t != nil && element != nil && element.rawElem != nil && held(t.heapMutex)
   modifies t.heap, allelems(int), generalheap.HeapElement.index
+  ensures (forall i Int :: 0 <= i && i < len(t.heap) ==> t.heap[i] != nil && t.heap[i].index == i && sel(hq, t.heap[i]) == t) && (forall r Int :: sel(hq, r) == t && as(*generalheap.HeapElement[HeapKey, *QueueElement[T]], r).index != 0 - 1 ==> 0 <= as(*generalheap.HeapElement[HeapKey, *QueueElement[T]], r).index && as(*generalheap.HeapElement[HeapKey, *QueueElement[T]], r).index < len(t.heap) && t.heap[as(*generalheap.HeapElement[HeapKey, *QueueElement[T]], r).index] == r)
+
+-- Shutdown: with the cancel flag the pending elements are taken out of the heap one by one through container/heap (each
+-- is marked removed), otherwise they stay; in both cases the handle invariant above holds when the heap lock is released
+assume-func github.com/iotaledger/hive.go/ds/bitmask.BitMask.HasBits(b, bits) (r)
+  ensures true
+assume-func container/heap.Pop(h) (r)
+  modifies Queue.heap, allelems(int), generalheap.HeapElement.index
+func Queue.Shutdown
+  instantiate T: int
+  requires t != nil && t.waitCond != nil && t.ctxCancel != nil && unlocked(t.heapMutex) && unlocked(t.shutdownMutex)
+  panics-when t.isShutdown
+  modifies everything
+  ghost after call Pop: assume (forall i Int :: 0 <= i && i < len(t.heap) ==> t.heap[i] != nil && t.heap[i].index == i && sel(hq, t.heap[i]) == t) && (forall r Int :: sel(hq, r) == t && as(*generalheap.HeapElement[HeapKey, *QueueElement[T]], r).index != 0 - 1 ==> 0 <= as(*generalheap.HeapElement[HeapKey, *QueueElement[T]], r).index && as(*generalheap.HeapElement[HeapKey, *QueueElement[T]], r).index < len(t.heap) && t.heap[as(*generalheap.HeapElement[HeapKey, *QueueElement[T]], r).index] == r)
+  loop 1 invariant t != nil && unlocked(t.heapMutex)
+  loop 2 invariant t != nil && held(t.heapMutex) && (forall i Int :: 0 <= i && i < len(t.heap) ==> t.heap[i] != nil && t.heap[i].index == i && sel(hq, t.heap[i]) == t) && (forall r Int :: sel(hq, r) == t && as(*generalheap.HeapElement[HeapKey, *QueueElement[T]], r).index != 0 - 1 ==> 0 <= as(*generalheap.HeapElement[HeapKey, *QueueElement[T]], r).index && as(*generalheap.HeapElement[HeapKey, *QueueElement[T]], r).index < len(t.heap) && t.heap[as(*generalheap.HeapElement[HeapKey, *QueueElement[T]], r).index] == r)
+  ensures unlocked(t.heapMutex)
 
 -- cancelling: the element leaves the heap if it is still queued, and its cancel channel is closed in every case -
 -- an element that a poller has already popped and is waiting for is woken up and skipped
